@@ -71,6 +71,7 @@ register('gen_quantity', verus_unit('gen_quantity', gen_verus.gen_quantity))
 register('gen_hasref', verus_unit('gen_hasref', gen_verus.gen_hasref))
 register('lemmas_m1_f64', verus_unit('lemmas_m1_f64', gen_verus.gen_m1_f64))
 register('lemmas_m1_dec', verus_unit('lemmas_m1_dec', gen_verus.gen_m1_dec))
+register('gen_hasref_decok', verus_unit('gen_hasref_decok', gen_verus.gen_hasref_decok))
 
 
 def run_units(names, prop, tier, seed):
@@ -82,7 +83,14 @@ def run_units(names, prop, tier, seed):
     with cf.ThreadPoolExecutor(max_workers=4) as ex:
         futs = {n: ex.submit(UNITS[n], prop, tier, seed) for n in names}
         for n in names:
-            results.append(futs[n].result())
+            try:
+                results.append(futs[n].result())
+            except Undecided as e:
+                # one unit that cannot be generated (lost anchor, construct outside the extractor's reach) leaves
+                # that unit undecided; the other units - in particular the Kani harnesses on the compiled crate -
+                # still decide what they can
+                results.append({'name': n, 'engine': 'kani' if n.startswith('kani_') else 'verus', 'obligations': [],
+                                'failures': [], 'undecided': [{'reason': str(e)}], 'wall_s': 0.0})
     return results
 
 # ---------------- per-type units from the expansions ----------------
@@ -216,12 +224,20 @@ def kani_crate(cfg):
                     g.gen_ufs(t)
                     g.gen_fit(t)
                     if kind == 'f64':
+                        g.gen_cvt(t)
+                        g.gen_cops(t)
                         g.gen_total_like(t)
                 else:
                     g.gen_noref(t)
             if kind == 'f64':
+                refd = [t for t in g.types if t.has_ref]
+                for k, t in enumerate(refd):
+                    if len(refd) > 1:
+                        g.gen_total_rate(t, refd[(k + 1) % len(refd)])   # Rate<t, next type>: every type once as term, once as per
+                        g.gen_crate(t, refd[(k + 1) % len(refd)])
                 for a, op, b, r in derived_forms(dm):
                     g.gen_total_derived(byname, a, op, b, r)
+                    g.gen_cderived(byname, a, op, b, r)
             if src == 'catalogue':
                 gen_kani.gen_si(g)
                 gen_kani.gen_conv(g)
@@ -238,10 +254,11 @@ def kani_crate(cfg):
 def kani_unit(cfg, family):
     def run(prop, tier, seed):
         d, text, meta = kani_crate(cfg)
-        return krunner.run_family(cfg, d, family, text, meta, jobs=12)
+        # quick tier: a family that normally takes one to three minutes is given 15 minutes, not 50
+        return krunner.run_family(cfg, d, family, text, meta, jobs=12, timeout=900 if tier == 'quick' else 3000)
     return run
 
 
 for cfg in KANI_CFG:
-    for fam in ('reg', 'sym', 'symc', 'syma', 'm0', 'tab', 'ufs', 'fit', 'total', 'totald', 'noref', 'si', 'si2', 'conv'):
+    for fam in ('reg', 'sym', 'symc', 'syma', 'm0', 'tab', 'ufs', 'fit', 'cvt', 'cops', 'cderived', 'crt', 'total', 'totald', 'noref', 'si', 'si2', 'conv'):
         register(f'kani_{cfg}:{fam}', kani_unit(cfg, fam))
